@@ -33,6 +33,8 @@ def layers_for(rep):
         return [Lq(0.5 * R, 9000.0, 4.0e11), S(R, 4000.0, 6.0e10 + 5.0e9j, K)]
     if name == "solid_liquid_solid":
         return [S(0.3 * R, 11000.0, 1.5e11 + 1.0e9j, 6.0e11), Lq(0.55 * R, 9000.0, 4.0e11), S(R, 4000.0, 6.0e10 + 5.0e9j, K)]
+    if name == "ocean_world":          # static-liquid SURFACE layer (ocean): only y5, hence only k, is defined at the surface
+        return [S(0.5 * R, 9000.0, 1.0e11 + 1.0e9j, 4.0e11), S(0.9 * R, 4000.0, 6.0e10 + 5.0e9j, K), dict(type="liquid", R=R * a, rho=1000.0, mu=0j, K=2.2e9 * a * a, static=True, incompressible=False)]
     raise ValueError(name)
 
 
@@ -71,7 +73,9 @@ def solve_rep(rep):
                    integration_method=rep["integ"], integration_rtol=rtol / 100.0, integration_atol=atol / 100.0, nondimensionalize=rep["nondim"],
                    warnings=False)
         if s2["success"]:
-            out["tight_shift"] = float(np.max(np.abs(s2["love"] - s["love"])))
+            same_nan = np.array_equal(np.isnan(s2["love"]), np.isnan(s["love"]))
+            dl = np.abs(s2["love"] - s["love"])
+            out["tight_shift"] = (float(np.nanmax(dl)) if np.any(~np.isnan(dl)) else 0.0) if same_nan else None
         else:
             out["tight_shift"] = None
     except Exception:
